@@ -6,7 +6,7 @@ IDS="${@:-C01 C02 C03 C04 C05 C06 C07 C08 C09 C10 C11 C12 C13 C14 C15 C16 C17 C1
 for id in $IDS; do
   [ -f /verif/checks/$(echo $id | tr A-Z a-z).py ] || continue
   s=$(date +%s)
-  r=$(cd /verif && ./check $id --tier $TIER 2>&1 | grep -E "^VIOLATION|^KNOWN|held on|violation\(s\)|MACHINERY|Error|Traceback" | head -5 | cut -c1-300 | tr '\n' '|')
+  r=$(cd /verif && ./check $id --tier $TIER 2>&1 | grep -E "^VIOLATION|^KNOWN|held on|violation\(s\)|MACHINERY|Error|Traceback" | cut -c1-160 | head -6 | tr '\n' '|')
   echo "$id rc=$? $(( $(date +%s) - s ))s :: $r" >> "$OUT"
 done
 echo DONE >> "$OUT"
